@@ -92,6 +92,7 @@ impl Report {
             Err(_) => {}
         }
         crate::alloc::set_property(property);
+        crate::alloc::install_fatal_signal_handler();
         Report {
             property: property.to_string(),
             tier,
